@@ -78,7 +78,7 @@ pub fn check_cell(cell: &Cell, seed: u64) -> Result<&'static str, (String, Strin
 }
 
 pub fn cells(ctx: &Ctx) -> Vec<Cell> {
-    let k_rand = if ctx.thorough() { 4000 } else { 300 };
+    let k_rand = if ctx.thorough() { 10000 } else { 1500 };
     let mut v = vec![];
     for &fam in CONTINUOUS.iter().chain(DISCRETE.iter()) {
         let fts: &[Ft] = if fam.int_only() { &[Ft::F64] } else { &[Ft::F32, Ft::F64] };
